@@ -176,7 +176,7 @@ class SchemaField:
             return "max legth exceeded"
         if subset and value not in subset:
             return f"out of subset: {subset}"
-        if alpha_num and re.search(r"\W+", value):
+        if alpha_num and re.search(r"[^A-Za-z0-9]", value):
             return "value contains non alphanumeric letters"
 
     @staticmethod
